@@ -3,9 +3,10 @@
   the silent peer.
 -/
 import WS.Lemmas.CloseTime
+import WS.Lemmas.CloseAnswered
 import WS.Props.C08
 namespace WS.Props.C08b
-open WS WS.Model WS.Spec WS.Lemmas.Frame WS.Lemmas.RecvStrict WS.Lemmas.Parser WS.Lemmas.ShortWrites WS.Lemmas.Loop WS.Lemmas.CloseTime
+open WS WS.Model WS.Spec WS.Lemmas.Frame WS.Lemmas.RecvStrict WS.Lemmas.Parser WS.Lemmas.Stream WS.Lemmas.ShortWrites WS.Lemmas.Loop WS.Lemmas.CloseTime WS.Lemmas.CloseAnswered
 
 /-- **C08_close_silent** — against a peer that never answers (nothing buffered, nothing in flight, every transport
     read times out), `close(status, reason, timeout=t)` on a connected object — for EVERY in-range status, every
@@ -70,7 +71,77 @@ theorem C08_close_silent (c : Conn) (s : Int) (r : Bytes) (t : Nat)
     · simp [Conn.shutdown, hsock1]
     · simp [Conn.shutdown, hsock1, Sock.shutdown, Sock.close]
 
+/-- **C08_close_answered** — … and against a peer whose answer is already on its way (the transport holds any number of
+    legal non-close frames followed by the peer's close frame, in any chunking, with nothing to wait for): `close()`
+    writes its one close frame, reads exactly up to and including the peer's close frame (`tail`, whatever follows, is
+    never read), takes NO time, and leaves the object released — for every timeout `t > 0`. -/
+theorem C08_close_answered (c : Conn) (s : Int) (r : Bytes) (t : Nat) (fs : List WireFrame) (wc : WireFrame) (tail : Bytes)
+    (hs : 0 ≤ s ∧ s < 65536) (hc : c.connected = true) (hrd : Ready c) (hr : r.length + 2 < 2 ^ 63) (ht : 0 < t)
+    (hd : DecodesTo (pending c) (fs ++ [wc]) tail)
+    (hval : ∀ w ∈ fs ++ [wc], validate (frameOfWire w) c.skipUtf8 = none)
+    (hnc : ∀ w ∈ fs, (frameOfWire w).opcode ≠ Gen.opcodeClose) (hclose : (frameOfWire wc).opcode = Gen.opcodeClose) :
+    ∃ w, format (createFrame (beN 2 s.toNat ++ r) Gen.opcodeClose) (c.keys.headD [0, 0, 0, 0]) = .ok w ∧
+      (c.close s r (some t)).1 = none ∧ (c.close s r (some t)).2.sock.clock = c.sock.clock ∧
+      (c.close s r (some t)).2.sock.wire = c.sock.wire ++ w ∧ (c.close s r (some t)).2.hasSock = false ∧
+      (c.close s r (some t)).2.connected = false ∧ (c.close s r (some t)).2.sock.closed = true ∧
+      pending (c.close s r (some t)).2 = tail := by
+  have h16 : (Gen.length16 : Int) = 65536 := by decide
+  have hop : Gen.opcodeClose ∈ Gen.opcodes := by decide
+  have hrange : (decide (s < 0) || decide (s ≥ 65536)) = false := by simp; omega
+  have hlen : (beN 2 s.toNat ++ r).length < 2 ^ 63 := by simp [beN_length]; omega
+  let c0 : Conn := { c with connected := false, ownCloses := c.ownCloses + 1 }
+  have hr0 : Ready c0 := ⟨hrd.live, hrd.chunks, hrd.cleared, hrd.writable⟩
+  obtain ⟨w, c1, hfmt, e1, hwire1, hw1, sr1⟩ := send_ok c0 (beN 2 s.toNat ++ r) Gen.opcodeClose hr0.writable hop hlen
+  have hclk1 : c1.sock.clock = c.sock.clock := by
+    have := send_clock c0 (beN 2 s.toNat ++ r) Gen.opcodeClose
+    rw [e1] at this; exact this
+  have hr1 : Ready c1 := ready_of_send hr0 sr1 hw1
+  have hp1 : pending c1 = pending c0 := pending_sameRecv sr1
+  have hsk1 : c1.skipUtf8 = c.skipUtf8 := sr1.2.2.2.2.2.2.2.2.1
+  have hsock1 : c1.hasSock = true := hw1.1
+  have hns : (!c1.hasSock) = false := by simp [hsock1]
+  -- the state in which the wait loop starts
+  have hr2 : Ready ({ c1 with sock := { c1.sock with timeoutMs := some t } } : Conn) :=
+    ⟨hr1.live, hr1.chunks, hr1.cleared, hr1.writable⟩
+  have hd2 : DecodesTo (pending ({ c1 with sock := { c1.sock with timeoutMs := some t } } : Conn)) (fs ++ [wc]) tail := by
+    show DecodesTo (pending c1) (fs ++ [wc]) tail
+    rw [hp1]; exact hd
+  have hfu : fs.length < ({ c1 with sock := { c1.sock with timeoutMs := some t } } : Conn).sock.size +
+      ({ c1 with sock := { c1.sock with timeoutMs := some t } } : Conn).buf.length + 2 := by
+    have h1 := decodesTo_len hd2
+    have h2 := bytesOf_le_size c1.sock.inp
+    simp [pending] at h1
+    show fs.length < c1.sock.size + c1.buf.length + 2
+    unfold Sock.size
+    omega
+  obtain ⟨c3, e3, p3, k3, r3, tm3, w3⟩ := closeWait_answered fs _ wc tail t _ hr2 hd2
+    (by intro x hx; show validate (frameOfWire x) c1.skipUtf8 = none; rw [hsk1]; exact hval x hx) hnc hclose ht hfu
+  have hsock3 : c3.hasSock = true := r3.live.1
+  have hns3 : (!c3.hasSock) = false := by simp [hsock3]
+  refine ⟨w, hfmt, ?_⟩
+  unfold Conn.close
+  rw [h16]
+  simp only [hc, hrange, Bool.not_true, Bool.false_eq_true, if_false]
+  rw [e1]
+  simp only [hns, Bool.false_eq_true, if_false]
+  rw [e3]
+  simp only [hns3, Bool.false_eq_true, if_false]
+  refine ⟨by trivial, ?_, ?_, ?_, ?_, ?_, ?_⟩
+  · simp [Conn.shutdown, hsock3, Sock.shutdown, Sock.close]; rw [k3]; exact hclk1
+  · simp [Conn.shutdown, hsock3, Sock.shutdown, Sock.close, Sock.wire]
+    have : c3.sock.wire = c.sock.wire ++ w := by rw [w3]; exact hwire1
+    simpa [Sock.wire] using this
+  · simp [Conn.shutdown, hsock3]
+  · simp [Conn.shutdown, hsock3]
+  · simp [Conn.shutdown, hsock3, Sock.shutdown, Sock.close]
+  · have : pending c3 = tail := p3
+    simpa [Conn.shutdown, hsock3, Sock.shutdown, Sock.close, pending] using this
+
 /-- non-vacuity and a concrete instance: `close(1000, "", 3 s)` on a fresh connection whose peer is silent. -/
 example : (({ sock := { tail := .timeout } } : Conn).close 1000 [] (some 3000)).2.sock.clock = 3000 := by decide
+
+/-- … and one whose peer's (empty) close frame is already there: no time passes, the frame is consumed. -/
+example : (({ sock := { inp := [.chunk [0x88, 0x00]], tail := .timeout } } : Conn).close 1000 [] (some 3000)).2.sock.clock = 0 ∧
+    pending (({ sock := { inp := [.chunk [0x88, 0x00]], tail := .timeout } } : Conn).close 1000 [] (some 3000)).2 = [] := by decide
 
 end WS.Props.C08b
